@@ -57,8 +57,15 @@ def run(ctx):
             ctx.states.append(digest(tgt.m.state_digest_obj()))
         if ctx.violations:
             return
-    if inserts == 0:
-        ctx.discard = "no-insert"
+    if inserts == 0 and not ctx.violations:
+        # every run performs at least one insertion
+        g = sim.graphs[0]
+        a_before = iso.observe(g.h)
+        b_befores = {x.name: iso.observe(x.h) for x in sim.graphs[1:]}
+        ctx.steps += 1
+        sim.do_insert(0, g)
+        tgt, src, mp, _mb, _sb, parent, _mapping = sim.last_insert
+        iso.check_insert(ctx, a_before, b_befores[src.name], iso.observe(tgt.h), iso.observe(src.h), mp, parent)
 
 
 def builder_leg_available():
